@@ -75,6 +75,19 @@ Theorem C05_declared_safe_operand : forall fuel env v verb s,
 Proof. exact declared_safe_operand. Qed.
 Print Assumptions C05_declared_safe_operand.
 
+(* the same for a SafeValue / registered value held in an interface-typed slice or array element
+   or map value, at any depth, whatever method renders it (after the repair of the registry
+   look-up on the dynamic type: before it the statement was false of the model for registered
+   types with a String/Error/Format method, and the implementation agreed with the model) *)
+Theorem C05_declared_safe_element : forall fuel env tn d verb depth s,
+  (is_registered d || is_safe_value d) = true ->
+  povr s = NoOvr ->
+  let s' := snd (ev (S (S fuel)) env (CPrintValue (VIface tn (Some d)) verb (S depth) true) s) in
+  povr s' = NoOvr /\
+  exists l, Forall op_s l /\ rlog (pl s') = OMode (lmode (pl s)) :: l ++ OMode MSafe :: rlog (pl s).
+Proof. exact declared_safe_element. Qed.
+Print Assumptions C05_declared_safe_element.
+
 (* The text outside the envelopes does not depend on the unsafe operands: for leaf operands
    related as in C02 (same format, unsafe integers/strings/bools differing), the two outputs have
    the same text outside envelopes - literals, diagnostics, type names, declared-safe operands. *)
